@@ -137,7 +137,7 @@ def judge_postcheck(case, impl):
 
 def cases(rng, tier):
     return S.gen_cases(rng, tier, 500 if tier == "quick" else 6000, immutable=False) \
-        + postcheck_cases(rng, 300 if tier == "quick" else 5000) + W.cases()
+        + postcheck_cases(rng, 300 if tier == "quick" else 5000) + W.cases() + S.immhook_cases()
 
 
 def search_cases(rng, tier):
@@ -198,6 +198,13 @@ def judge(case, impl, model):
             if i + 1 < len(wf) and wf[i] and not wf[i + 1]:
                 fails.append((f"unvalidated:{site}",
                               f"{json.dumps(op)[:200]} succeeded and left the instance invalid: " + json.dumps(st["state"])[:300]))
+            # the class's own __validate__ hook (generated: raises when a listed field holds a listed value) must accept
+            # the state every successful operation leaves behind
+            held = _hook_rejects(case.get("hook"), st["state"])
+            if held and not _hook_rejects(case.get("hook"), prev):
+                fails.append((f"unvalidated:hook:{site}",
+                              f"{json.dumps(op)[:200]} succeeded although the class's __validate__ hook rejects the resulting instance "
+                              f"({held[0]} == {json.dumps(held[1])[:80]}): " + json.dumps(st["state"])[:300]))
         else:
             if dump.canon(st["state"]) != dump.canon(prev):
                 fails.append((f"not-atomic:{site}",
@@ -211,6 +218,14 @@ def judge(case, impl, model):
                 fails.append((f"error-class:{site}", f"{json.dumps(op)[:200]} raised {st['out']}: {st.get('msg')}"))
         prev = st["state"]
     return msg, fails
+
+
+def _hook_rejects(hooks, state):
+    for f, v in hooks or []:
+        for k, cur in state["o"][1]:
+            if k == f and cur is not None and dump.canon(cur) == dump.canon(v):
+                return (f, v)
+    return None
 
 
 def _holds_collection(state, name):
